@@ -20,7 +20,7 @@ DEFAULTS = {
     # property: (quick runs, thorough budget seconds, chunk)
     "C15": (4000, 600, 25),
     "C16": (2400, 600, 20),
-    "C17": (208, 600, 2),
+    "C17": (288, 600, 2),
     "C18": (112, 600, 1),
 }
 
